@@ -32,8 +32,12 @@ def _same(run, key, a_node, b_node, where_a, where_b, what):
     if a_node is None or b_node is None:
         run.unknown(key, 'expression not found on %s side' % ('geometry' if a_node is None else 'grid'), where=where_b or where_a); return
     a = ast.parse(_ren(norm(a_node)), mode='eval').body
-    b = ast.parse(_ren(norm(b_node)), mode='eval').body
-    if canon(a) == canon(b): run.ok(key, _ren(norm(a_node)), where=where_b)
+    from ..formula import compare as _cmp
+    r = _cmp(a, _ren(norm(b_node)))
+    if r == 'equal': run.ok(key, _ren(norm(a_node)), where=where_b)
+    elif r == 'incomparable':
+        # different vocabulary (a local variable called differently on the two sides, ...): not decided, never a violation
+        run.unknown(key, '%s: `%s` (geometry) and `%s` (grid builder) do not use the same names' % (what, norm(a_node), norm(b_node)), where=where_b)
     else:
         run.violated(key, '%s: the geometry uses `%s`, the grid builder `%s`: the grid does not have the blocks/connections in the '
                      'order and orientation the geometry announces' % (what, norm(a_node), norm(b_node)), where=where_b)
@@ -95,17 +99,38 @@ def rule_twin(run):
     elif lp: run.violated(key, 'iterates `%s`' % norm(lp[0].iter), where=au.where(lp[0]))
     else: run.unknown(key, 'loop not found', where=au.where())
     if lp:
+        # the block constructed per name: its arguments with every local of the loop body substituted by its definition
         bn = lp[0].target.id
-        asg = dict((norm(n.targets[0]), n.value) for n in lp[0].body if isinstance(n, ast.Assign))
-        for var, want in (('lay', 'geo.layer[geo.layer_name(%s)]' % bn), ('col', 'geo.column[geo.column_name(%s)]' % bn),
-                          ('centre', 'geo.block_centre(lay, col)'), ('vol', 'geo.block_volume(lay, col)'),
-                          ('name', '%s[%s] if %s in %s else %s' % ('blockmap', bn, bn, 'blockmap', bn))):
+        geo_, bmap = au.params[1], (au.params[2] if len(au.params) > 2 else 'blockmap')
+        defs = {}
+        for n in lp[0].body:
+            if isinstance(n, ast.Assign) and len(n.targets) == 1 and isinstance(n.targets[0], ast.Name):
+                defs[n.targets[0].id] = None if n.targets[0].id in defs else n.value        # defined twice: not substituted
+
+        def inline(e, depth=0):
+            class R(ast.NodeTransformer):
+                def visit_Name(self, x):
+                    if isinstance(x.ctx, ast.Load) and defs.get(x.id) is not None and depth < 6:
+                        return inline(copy.deepcopy(defs[x.id]), depth + 1)
+                    return x
+            return R().visit(copy.deepcopy(e))
+        mk = [c for c in ast.walk(lp[0]) if isinstance(c, ast.Call) and isinstance(c.func, ast.Name) and c.func.id == 't2block']
+        LAY, COL = '%s.layer[%s.layer_name(%s)]' % (geo_, geo_, bn), '%s.column[%s.column_name(%s)]' % (geo_, geo_, bn)
+        want = (('name', lambda c: c.args[0] if c.args else None, '%s[%s] if %s in %s else %s' % (bmap, bn, bn, bmap, bn)),
+                ('vol', lambda c: c.args[1] if len(c.args) > 1 else None, '%s.block_volume(%s, %s)' % (geo_, LAY, COL)),
+                ('centre', lambda c: dict((k.arg, k.value) for k in c.keywords).get('centre', c.args[3] if len(c.args) > 3 else None),
+                 '%s.block_centre(%s, %s)' % (geo_, LAY, COL)))
+        for var, pick, expected in want:
             k = 'underground blocks :: %s' % var
-            if var not in asg: run.unknown(k, 'assignment not found', where=au.where(lp[0])); continue
-            r = compare(asg[var], want)
-            if r == 'equal': run.ok(k, where=au.where(lp[0]))
-            elif r == 'different': run.violated(k, '%s = %s (expected %s)' % (var, norm(asg[var]), want), where=au.where(lp[0]))
-            else: run.unknown(k, norm(asg[var]), where=au.where(lp[0]))
+            if len(mk) != 1 or pick(mk[0]) is None:
+                run.unknown(k, 't2block(...) construction not found in the loop', where=au.where(lp[0])); continue
+            got = inline(pick(mk[0]))
+            r = compare(got, expected)
+            if r == 'equal': run.ok(k, where=au.where(mk[0]))
+            elif r == 'different': run.violated(k, 'the block is built with %s = %s (expected %s)' % (var, norm(got), expected), where=au.where(mk[0]))
+            else: run.unknown(k, norm(got), where=au.where(mk[0]))
+        added = [c for c in ast.walk(lp[0]) if isinstance(c, ast.Call) and call_name(c) == 'add_block' and dotted(c.func.value) == 'self']
+        run.shape(len(added) == 1, 'underground blocks :: each constructed block is added', 'self.add_block(...) not found once in the loop', where=au.where(lp[0]))
     # order: atmosphere blocks, then underground ; blocks then connections
     def call_order(fi):
         return [call_name(c) for c in walk_no_nested(fi.node) if isinstance(c, ast.Call) and isinstance(c.func, ast.Attribute) and dotted(c.func.value) == 'self']
